@@ -243,20 +243,23 @@ def readTLV (tag : UInt8) : List UInt8 → Option (List UInt8 × List UInt8)
       | none => none
       | some (l, r2) => if r2.length < l then none else some (r2.take l, r2.drop l)
 
-/-- `read_biguint`: non-negative, minimally encoded INTEGER -/
-def readBiguint (bs : List UInt8) : Option (Nat × List UInt8) :=
+/-- `read_biguint` followed by `BigUint::to_bytes_be`: the minimal big-endian magnitude ([0] for zero) of a
+non-negative, minimally encoded INTEGER -/
+def readBiguint (bs : List UInt8) : Option (List UInt8 × List UInt8) :=
   match readTLV 0x02 bs with
   | none => none
   | some (c, rest) =>
     match c with
     | [] => none
-    | [b] => if b ≥ 0x80 then none else some (b.toNat, rest)
-    | b0 :: b1 :: _ =>
+    | [b] => if b ≥ 0x80 then none else some ([b], rest)
+    | b0 :: b1 :: tl =>
       if b0 ≥ 0x80 then none                                   -- negative
       else if b0 = 0 ∧ b1 < 0x80 then none                      -- non-minimal
-      else some (beNat c, rest)
+      else if b0 = 0 then some (b1 :: tl, rest)                 -- sign byte dropped
+      else some (c, rest)
 
-def parseCiphertext (der : List UInt8) : Option (Nat × Nat × List UInt8 × List UInt8) :=
+/-- (x magnitude, y magnitude, hash, cipher) of a GM/T 0009 ciphertext; `none` = yasna reports a parse error -/
+def parseCiphertext (der : List UInt8) : Option (List UInt8 × List UInt8 × List UInt8 × List UInt8) :=
   match readTLV 0x30 der with
   | none => none
   | some (body, trailing) =>
@@ -270,12 +273,6 @@ def parseCiphertext (der : List UInt8) : Option (Nat × Nat × List UInt8 × Lis
           | some (h, r3) => match readTLV 0x04 r3 with
             | none => none
             | some (c, r4) => if r4.isEmpty then some (x, y, h, c) else none
-
-/-- minimal big-endian bytes of a natural number (`BigUint::to_bytes_be`: [0] for zero) -/
-def biguintBytes (x : Nat) : List UInt8 :=
-  if x = 0 then [0] else
-    let nbytes := (Nat.log2 x) / 8 + 1
-    natBE nbytes x
 
 /-- `encrypt_asn1` (after the fix) -/
 def encrypt_asn1 (pk : Point) (msg : List UInt8) (cands : List (List UInt8)) : Outcome (Rand (List UInt8)) :=
@@ -294,9 +291,7 @@ def encrypt_asn1 (pk : Point) (msg : List UInt8) (cands : List (List UInt8)) : O
 def decrypt_asn1 (d : Nat) (der : List UInt8) : Outcome (List UInt8) :=
   match parseCiphertext der with
   | none => .err "InvalidDer"
-  | some (x, y, h, c) =>
-    let xb := biguintBytes x
-    let yb := biguintBytes y
+  | some (xb, yb, h, c) =>
     if xb.length > 32 ∨ yb.length > 32 ∨ h.length ≠ 32 then .err "InvalidDer"
     else
       decrypt d ([0x04] ++ List.replicate (32 - xb.length) 0 ++ xb ++ List.replicate (32 - yb.length) 0 ++ yb ++ h ++ c)
